@@ -27,6 +27,18 @@ pub fn cases(thorough: bool, seed: u64) -> Vec<Params> {
             }
         }
     }
+    // large signer sets (encodings and loops specialised by size): everybody signs, and a t-subset from the top
+    for (n, t) in crate::large_pairs(thorough) {
+        for (k, ids) in [IdSet::Default, IdSet::Wide(seed)].into_iter().enumerate() {
+            if k == 1 && n > 17 {
+                continue;
+            }
+            out.push(Params { n, t, ids: ids.clone(), subset: (0..n as usize).collect(), variant: V_FLOW, aux: (k as u64 + 1) % 4, seed });
+            if t < n {
+                out.push(Params { n, t, ids: ids.clone(), subset: ((n - t) as usize..n as usize).collect(), variant: V_FLOW, aux: (k as u64 + 2) % 4, seed });
+            }
+        }
+    }
     for k in 0..4u64 {
         out.push(Params { n: 2, t: 2, ids: IdSet::Default, subset: vec![], variant: V_SINGLE, aux: k, seed });
     }
